@@ -63,7 +63,7 @@ def slot(kind: int, i: int):
         [Tag("ul", Tag("li", t), "mid", Tag("li", "deep" + t, Tag("b")))]
 
 
-N_WRAP = 5
+N_WRAP = 7
 
 
 def wrap(w: int, items):
@@ -75,7 +75,11 @@ def wrap(w: int, items):
         return Tag("div", "lead", Tag("span", *items, _add_ws=False))
     if w == 3:
         return HTMLDocument(*items, lang="en")
-    return HTMLDocument(Tag("body", *items))
+    if w == 4:
+        return HTMLDocument(Tag("body", *items))
+    if w == 5:
+        return HTMLDocument(Tag("html", Tag("head", Tag("title", "t")), Tag("body", *items)), lang="en")
+    return HTMLDocument(Tag("html", Tag("body", Tag("div", *items))))
 
 
 def _dep_names(r):
@@ -113,7 +117,7 @@ def _pre_splice(B, w, k0, k1, k2, k3):
 
 @harness("C09", pre=_pre_splice, bounds={"quick": {"FOUR": False}, "thorough": {"FOUR": True}},
          shard={"w": range(N_WRAP), "k0": range(N_KIND)},
-         sel=["w: wrapper (TagList, block tag, inline inside block, HTMLDocument, HTMLDocument with a <body>)",
+         sel=["w: wrapper (TagList, block tag, inline inside block, HTMLDocument, HTMLDocument with a <body>, with the user's own <html> with and without <head>)",
               "k0..k3: sibling slots: absent / text / block tag / tagifiable expanding to TagList of length 0, 1, 3 / Tag / str / HTML() / dependency / "
               "expansion containing another expansion / dependency + tag / tag holding tagifiable children / one-element TagList with a dependency or a multi-line block"],
          targets=["htmltools._core.TagList.tagify", "htmltools._core.Tag.tagify", "htmltools._core.TagList.render", "htmltools._core.Tag.render"],
